@@ -65,6 +65,9 @@ pub struct World {
     pub orphan_cause: HashMap<Byte32, &'static str>,
     /// txs committed only on an abandoned branch that did not come back to the pool
     pub lost_detached: HashSet<Byte32>,
+    /// id of the transaction whose two-step submission (pre_check / submit_entry) straddled the change of
+    /// the tip that is being evaluated (it was not pooled when the pool processed that change)
+    pub straddle_tx: Option<ProposalShortId>,
 }
 
 /// what changed on the node's main chain by one delivered block
@@ -73,6 +76,27 @@ pub struct Change {
     pub attached: Vec<BlockView>,
     /// `set` of the proposal view before the change
     pub old_set: Vec<ProposalShortId>,
+}
+
+/// the main-chain difference between two snapshots of the same node (`before` is the older one)
+pub fn change_between(before: &ckb_snapshot::Snapshot, after: &ckb_snapshot::Snapshot) -> Change {
+    let before_tip = before.tip_header().clone();
+    let mut detached = vec![];
+    let mut attached = vec![];
+    let mut n = std::cmp::min(before_tip.number(), after.tip_number());
+    for k in (n + 1..=before_tip.number()).rev() {
+        detached.push(before.get_block(&before.get_block_hash(k).unwrap()).unwrap());
+    }
+    while n > 0 && before.get_block_hash(n) != after.get_block_hash(n) {
+        detached.push(before.get_block(&before.get_block_hash(n).unwrap()).unwrap());
+        n -= 1;
+    }
+    for k in n + 1..=after.tip_number() {
+        attached.push(after.get_block(&after.get_block_hash(k).unwrap()).unwrap());
+    }
+    detached.reverse();
+    let old_set = before.proposals().set().iter().cloned().collect();
+    Change { detached, attached, old_set }
 }
 
 pub fn is_live(snap: &ckb_snapshot::Snapshot, op: &OutPoint) -> bool {
@@ -124,6 +148,7 @@ impl World {
             allow_recent: false,
             orphan_cause: HashMap::new(),
             lost_detached: HashSet::new(),
+            straddle_tx: None,
         };
         let genesis = w.consensus.genesis_block().clone();
         w.block_id.insert(genesis.hash(), 0);
@@ -418,26 +443,11 @@ impl World {
         if after.tip_hash() == before_tip.hash() {
             return Ok(None);
         }
-        // common ancestor
-        let mut detached = vec![];
-        let mut attached = vec![];
-        let mut n = std::cmp::min(before_tip.number(), after.tip_number());
-        for k in (n + 1..=before_tip.number()).rev() {
-            detached.push(before.get_block(&before.get_block_hash(k).unwrap()).unwrap());
-        }
-        while n > 0 && before.get_block_hash(n) != after.get_block_hash(n) {
-            detached.push(before.get_block(&before.get_block_hash(n).unwrap()).unwrap());
-            n -= 1;
-        }
-        for k in n + 1..=after.tip_number() {
-            attached.push(after.get_block(&after.get_block_hash(k).unwrap()).unwrap());
-        }
-        detached.reverse();
-        for d in &detached {
+        let ch = change_between(&before, &after);
+        for d in &ch.detached {
             self.stash.push(d.clone());
         }
-        let old_set = before.proposals().set().iter().cloned().collect();
-        Ok(Some(Change { detached, attached, old_set }))
+        Ok(Some(ch))
     }
 
     pub fn template(&mut self) -> Option<BlockTemplate> {
